@@ -82,7 +82,23 @@ func (g *Rng) addrStep(dir string, uniq string, k int) addrStep {
 		return addrStep{addr: "unix:" + p, pre: pre, path: p, must: true, cmp: true, kind: "unix-fs-" + pre}
 	}
 	var s addrStep
-	switch g.Intn(22) {
+	switch g.Intn(25) {
+	case 22:
+		// a relative path whose file name starts with '@': a filesystem socket, not an abstract one
+		p := fmt.Sprintf("./@rel-%s-%d", uniq, k)
+		s = addrStep{addr: "unix:" + p, pre: "absent", path: p, must: true, cmp: true, kind: "unix-dot-at"}
+	case 23:
+		// `link/..` where link is a symbolic link to a deeper directory: the kernel resolves it to the parent of
+		// the link's target, a lexical clean-up of the path would end up somewhere else
+		real := filepath.Join(dir, fmt.Sprintf("real%d", k))
+		os.MkdirAll(filepath.Join(real, "sub"), 0o755)
+		os.Symlink(filepath.Join(real, "sub"), filepath.Join(dir, fmt.Sprintf("link%d", k)))
+		given := filepath.Join(dir, fmt.Sprintf("link%d", k)) + "/../sock"
+		s = addrStep{addr: "unix:" + given, pre: "absent", path: filepath.Join(real, "sock"), must: true, cmp: true, kind: "unix-symlink-dotdot"}
+	case 24:
+		// redundant separators and dots are the kernel's business, not the library's
+		p := dir + fmt.Sprintf("//./d%d", k)
+		s = addrStep{addr: "unix:" + p, pre: "absent", path: filepath.Join(dir, fmt.Sprintf("d%d", k)), must: true, cmp: true, kind: "unix-unclean"}
 	case 0, 1:
 		s = fs("absent")
 	case 2:
